@@ -62,6 +62,11 @@ CHECKS = {
             "For every generated combination of 0-3 servos (prologue or top of main loop), 0-2 parallel and 0-2 I2C LCDs, other devices and decoy identifiers/strings/comments, the requested libraries, the included headers and the instantiated library classes must all equal the set the generator declared, with nothing listed twice and Wire.h accompanying the I2C header.",
             "Library versions and registry names cannot be checked offline.",
             "DESIGN.md 3/C14"),
+    "C05": ("exploration",
+            "generated phase scripts (devices declared before / at the top of the main loop, numbered markers, persisting counters, buttons, LCD animations, main-loop break) run on the mock core; temporal monitors over the firmware trace derived from the script",
+            "The firmware trace of each generated script is checked by monitors: prologue markers exactly once in order before pass 0, body markers once per pass in order with counters continuing, every device-owned pin configured (right mode, in setup, never changed) before first use, servo attached / LCD begun / Serial begun / motor safely stopped before use, exactly one button sample per pass and all injected housekeeping before the first user statement without delay, and main-loop `break` rejected.",
+            "Mock core as observation device; general persistence of values across passes is additionally covered by C01's differential.",
+            "DESIGN.md 3/C05"),
 }
 
 PENDING = {}
